@@ -97,7 +97,13 @@ def main():
             import glob
             for rd in glob.glob(os.path.join(VERIF, '_work', 'run', '*_' + h10)):
                 shutil.rmtree(rd, ignore_errors=True)
-    meta['evaluation'] = res
+    # --key NAME stores the result under another key (robustness passes with another VERIF_SEED keep the main evaluation)
+    key = 'evaluation'
+    for i, a in enumerate(sys.argv):
+        if a == '--key':
+            key = sys.argv[i + 1]
+    res['seed'] = os.environ.get('VERIF_SEED', '1')
+    meta[key] = res
     json.dump(meta, open(os.path.join(d, 'meta.json'), 'w'), indent=1)
     print(name, pid, 'tests_pass=%s demo pristine rc=%s patched rc=%s caught_by=%s' %
           (res.get('tests_all_pass'), res.get('demo_pristine_rc'), res.get('demo_patched_rc'), res.get('caught_by')))
